@@ -94,9 +94,10 @@ Definition clean (p : str) : str :=
   let out := if rooted then 47 :: body else body in
   if is_nil out then dot else out.
 
-(* filepath.Join(a, b) for non-empty b: empty leading elements are ignored *)
+(* filepath.Join(a, b): Clean of the "/"-join starting at the first non-empty element;
+   "" when both are empty *)
 Definition join2 (a b : str) : str :=
-  if is_nil a then clean b else clean (a ++ 47 :: b).
+  if is_nil a then (if is_nil b then [] else clean b) else clean (a ++ 47 :: b).
 
 (* strings.TrimPrefix *)
 Definition trim_prefix (s p : str) : str :=
@@ -105,12 +106,28 @@ Definition trim_prefix (s p : str) : str :=
 (* ------------------------------------------------------------------ DirFiles, HashDir *)
 Definition tree := list (str * option str).
 
-(* DirFiles: filepath.ToSlash(filepath.Join(prefix, rel)) for every file, in walk order *)
-Definition dir_files (t : tree) (prefix : str) : list str :=
-  map (fun e => join2 prefix (fst e)) t.
+(* The path filepath.Walk(cdir, ...) reports for the entry at rel below the cleaned
+   directory argument cdir: filepath.Join(cdir, rel) = rel for ".", "/rel" for the root *)
+Definition walk_file (cdir rel : str) : str :=
+  if str_eqb cdir dot then rel
+  else if str_eqb cdir [47] then 47 :: rel
+  else cdir ++ 47 :: rel.
 
-(* filepath.Join(dir, x) followed by os.Open: [x] is resolved lexically below dir;
-   None = it climbs out of dir *)
+(* rel := file; if dir != "." { rel = file[len(dir)+1:] }   (dir already cleaned).
+   For cdir = "/" this drops the first byte of the name (the code's quirk, kept). *)
+Definition dir_rel (cdir file : str) : str :=
+  if str_eqb cdir dot then file else skipn (S (length cdir)) file.
+
+(* DirFiles(dir, prefix): dir = filepath.Clean(dir); for every file in walk order
+   filepath.ToSlash(filepath.Join(prefix, rel)).  [dir] is the directory argument as
+   spelled by the caller (".", "./", "sub", "./sub/", absolute ...); [t] is what lies
+   below the directory it denotes. *)
+Definition dir_files (dir : str) (t : tree) (prefix : str) : list str :=
+  let cdir := clean dir in
+  map (fun e => join2 prefix (dir_rel cdir (walk_file cdir (fst e)))) t.
+
+(* filepath.Join(dir, x) followed by os.Open: [x] is resolved lexically below dir
+   (whatever the spelling of dir); None = it climbs out of dir *)
 Fixpoint resolve_comps (cs : list str) (stack : list str) : option (list str) :=
   match cs with
   | [] => Some (rev stack)
@@ -140,12 +157,17 @@ Definition dir_open (t : tree) (prefix : str) (name : str) : option str :=
   | None => None
   end.
 
-Definition escapes (prefix : str) (name : str) : bool :=
-  match resolve (trim_prefix name prefix) with Some _ => false | None => true end.
+(* does filepath.Join(dir, x) leave the directory?  Lexically ([resolve]); and for the
+   empty directory argument Join("", "/rel") = "/rel" is an absolute path (DirFiles("")
+   lists the current directory, but HashDir("", prefix) then opens from the root) *)
+Definition escapes (dir : str) (prefix : str) (name : str) : bool :=
+  let x := trim_prefix name prefix in
+  (is_nil dir && match x with 47 :: _ => true | _ => false end)
+  || match resolve x with Some _ => false | None => true end.
 
-Definition hash_dir (t : tree) (prefix : str) : result :=
-  let files := dir_files t prefix in
-  if existsb (escapes prefix) files then Outside
+Definition hash_dir (dir : str) (t : tree) (prefix : str) : result :=
+  let files := dir_files dir t prefix in
+  if existsb (escapes dir prefix) files then Outside
   else hash1 files (dir_open t prefix).
 
 (* ------------------------------------------------------------------ HashZip *)
